@@ -284,6 +284,8 @@ def read_source(path=None):
       gen = st
     elif isinstance(st, (ast.Assign, ast.Expr, ast.AugAssign, ast.Delete)):
       txt = ast.unparse(st)
+      if txt.startswith("__all__ ="):
+        continue
       if re.search(r"\b(window|wsymm|_generate_window_strategies)\b", txt) and not attr_target(st, "window", "_doc_kwargs"):
         tops.append(txt)
   if not {"sin", "cos", "pi"} <= math_names:
